@@ -118,6 +118,10 @@ type verifDC struct {
 	Queue    *env.Queue
 	Recorder *env.Recorder
 	Cfg      verifDCConfig
+	// identity-preserving cache (Resnapshot): what was handed out last time and
+	// the resourceVersion each cached object had when it entered the cache
+	cacheParents, cacheChildren map[string][]*unstructured.Unstructured
+	cacheRV                     map[*unstructured.Unstructured]string
 }
 
 func verifDCGVR(r *dynamicdiscovery.APIResource) schema.GroupVersionResource {
@@ -211,6 +215,45 @@ func (d *verifDC) SnapshotFromStore() []*unstructured.Unstructured {
 	for _, a := range d.Cfg.Attachments {
 		children[a.Res.Name] = d.W.Srv.All(a.Res.Name)
 	}
+	d.Snapshot(parents, children)
+	return parents[d.Cfg.Rules[0].Res.Name]
+}
+
+// Resnapshot is what a real informer does between two syncs: objects whose
+// stored version did not change keep their IDENTITY in the cache (the very same
+// in-memory object is handed out again, including anything a sync wrongly
+// wrote into it), changed or new ones are replaced by what the server holds.
+func (d *verifDC) Resnapshot() []*unstructured.Unstructured {
+	keep := func(old []*unstructured.Unstructured, cur []*unstructured.Unstructured) []*unstructured.Unstructured {
+		out := make([]*unstructured.Unstructured, 0, len(cur))
+		for _, c := range cur {
+			var same *unstructured.Unstructured
+			for _, o := range old {
+				if o.GetUID() == c.GetUID() && o.GetNamespace() == c.GetNamespace() && o.GetName() == c.GetName() && d.cacheRV[o] == c.GetResourceVersion() {
+					same = o
+				}
+			}
+			if same != nil {
+				out = append(out, same)
+			} else {
+				d.cacheRV[c] = c.GetResourceVersion()
+				out = append(out, c)
+			}
+		}
+		return out
+	}
+	if d.cacheRV == nil {
+		d.cacheRV = map[*unstructured.Unstructured]string{}
+	}
+	parents := map[string][]*unstructured.Unstructured{}
+	children := map[string][]*unstructured.Unstructured{}
+	for _, r := range d.Cfg.Rules {
+		parents[r.Res.Name] = keep(d.cacheParents[r.Res.Name], d.W.Srv.All(r.Res.Name))
+	}
+	for _, a := range d.Cfg.Attachments {
+		children[a.Res.Name] = keep(d.cacheChildren[a.Res.Name], d.W.Srv.All(a.Res.Name))
+	}
+	d.cacheParents, d.cacheChildren = parents, children
 	d.Snapshot(parents, children)
 	return parents[d.Cfg.Rules[0].Res.Name]
 }
